@@ -7,13 +7,17 @@ EXTENDS Url, Json
 
 CONSTANTS PrefixId,    \* 0: none, 1: "http://", 2: "https://", 3: "HTTP://a@", 4: "hTTps://B:1@"
           N,           \* bound on Len(w)
-          SeedLen,     \* 1 or 2: number of symbols that select the shard
+          SeedLen,     \* 0, 1 or 2: number of symbols that select the shard (0: no sharding)
           C1, C2       \* the selecting symbols (C1 = 0: the shard of all w shorter than SeedLen)
 
 \* delimiter-heavy alphabet of the property:  a 1 / ? # \ @ : [ ] % .
 MCAlpha12 == {97, 49, 47, 63, 35, 92, 64, 58, 91, 93, 37, 46}
 \* the same plus an upper-case hex letter (host lower-casing / escape upper-casing)
 MCAlpha13 == MCAlpha12 \cup {66}
+\* the encoder's alphabet:  % a 1 B z SP / @ ? e-acute   (hex lower/upper, non-hex, must-encode, delimiters, non-ASCII)
+MCAlphaEnc == {37, 97, 49, 66, 122, 32, 47, 64, 63, 233}
+\* dot-segment alphabet:  / . a
+MCAlphaPath == {47, 46, 97}
 
 Pfx == CASE PrefixId = 1 -> <<104, 116, 116, 112, 58, 47, 47>>
          [] PrefixId = 2 -> <<104, 116, 116, 112, 115, 58, 47, 47>>
@@ -22,7 +26,7 @@ Pfx == CASE PrefixId = 1 -> <<104, 116, 116, 112, 58, 47, 47>>
          [] OTHER -> <<>>
 
 MCMaxLen == Len(Pfx) + N
-MCGrow == C1 # 0
+MCGrow == C1 # 0 \/ SeedLen = 0          \* SeedLen = 0: one shard, the whole domain
 MCSeeds == IF C1 = 0
            THEN {Pfx} \cup (IF SeedLen = 2 THEN {Pfx \o <<c>> : c \in Alphabet} ELSE {})
            ELSE IF SeedLen = 2 THEN {Pfx \o <<C1, C2>>} ELSE {Pfx \o <<C1>>}
@@ -30,7 +34,112 @@ MCSeeds == IF C1 = 0
 \* one line per string: the reference reading (kind, positions of userinfo and host in the
 \* prefixed string, port) and the observation the model predicts
 UrlTuple(u) == <<u.scheme, u.auth, u.host, u.port, u.path, u.query, u.fragment>>
-EmitOf(r, m) ==
+\* sparse: strings for which the model predicts LocationParseError print nothing
+EmitOf(r, m, ev) ==
+    m.k # "lpe" =>
         PrintT(<<"R", ToJson(<<s, r.kind, r.pos, r.port, m.k,
-                               IF m.k = "url" THEN UrlTuple(m.u) ELSE <<>> >>)>>)
+                               IF m.k = "url" THEN UrlTuple(m.u) ELSE <<>>,
+                               IF m.k = "url" THEN ev.k2 ELSE "-",
+                               IF m.k = "url" THEN ev.u2 = ev.u ELSE FALSE,
+                               IsHttp(r) /\ r.host # <<>> >>)>>)
+EmitRef == EmitOf(Ref(s), ModelParse(s), ModelEvent(s))
+
+-----------------------------------------------------------------------------
+(* C15: URL shapes.  The same variable s ranges over the texts of the shapes (Seeds <- MCWireSeeds, *)
+(* Grow <- FALSE); every text is read with Ref and the wire image derived with WireOf.               *)
+CONSTANTS WLevel,      \* 1: quick subset, 2: all shapes
+          WShard, WShards   \* this run handles the shapes whose host index % WShards = WShard
+
+Ascii == " !\"#$%&'()*+,-./0123456789:;<=>?@ABCDEFGHIJKLMNOPQRSTUVWXYZ[\\]^_`abcdefghijklmnopqrstuvwxyz{|}~"
+Code(ch) == 31 + CHOOSE i \in 1..Len(Ascii) : SubSeq(Ascii, i, i) = ch
+S(str) == [i \in 1..Len(str) |-> Code(SubSeq(str, i, i))]
+
+Buecher == <<98, 252, 99, 104, 101, 114>>
+WSchemes == {S("http"), S("https")}
+WHostSeq == << S("example.com"), S("example.com."), S("127.0.0.1"), S("[::1]"), S("[fe80::1%25eth0]"),
+               S("[fe80::1%eth0]"), Buecher \o S(".example"), Buecher \o S(".example."), S("[::ffff:1.2.3.4]"),
+               S("a-b.c_d.example"), <<20363, 12360>> \o S(".jp") >>
+WHostIdx == IF WLevel = 1 THEN 1..8 ELSE 1..Len(WHostSeq)
+WPorts == IF WLevel = 1 THEN {<<>>, S(":"), S(":80"), S(":443"), S(":8080"), S(":0")}
+          ELSE {<<>>, S(":"), S(":80"), S(":443"), S(":080"), S(":00443"), S(":8080"), S(":0"), S(":65535")}
+WUserinfos == IF WLevel = 1 THEN {<<>>, S("u:p@")} ELSE {<<>>, S("u:p@"), S("a@b@"), S("%41:%zz@")}
+WTails == IF WLevel = 1 THEN {<<>>, S("/"), S("/a/../b?x=1#frag"), S("?q"), S("#f"), S("/a%20b/./%7e?y%2f")}
+          ELSE {<<>>, S("/"), S("/a/../b?x=1#frag"), S("?q"), S("#f"), S("/a%20b/./%7e?y%2f"), S("/a b?c d#e f"),
+                S("//x"), S("/%zz?%"), S("\\x"), S("/p?"), S("/../..?a?b#c#d"), S("/") \o Buecher \o S("?") \o Buecher}
+CSS == S("://")
+MCWireSeeds == { sch \o CSS \o ui \o WHostSeq[h] \o po \o tl :
+                    sch \in WSchemes, ui \in WUserinfos, h \in {i \in WHostIdx : i % WShards = WShard},
+                    po \in WPorts, tl \in WTails }
+MCProxy == S("http://Proxy.test:3128")
+PxRef == Ref(MCProxy)
+
+\* variants of a URL that differ only in scheme/host letter case or an explicit default port, built
+\* from the reading itself; plus one control that is NOT equivalent (another port)
+Upper(t) == IF t = <<>> THEN <<>> ELSE [i \in 1..Len(t) |-> UpperC(t[i])]
+UpperHost(h) == IF Bracketed(h) /\ HasAny(h, {PCT})
+                THEN Upper(SubSeq(h, 1, FirstIn(h, 1, Len(h), {PCT}))) \o SubSeq(h, FirstIn(h, 1, Len(h), {PCT}) + 1, Len(h))
+                ELSE Upper(h)
+RestOf(R) == R.path \o (IF R.query = NONE THEN <<>> ELSE <<QM>> \o R.query)
+                    \o (IF R.fragment = NONE THEN <<>> ELSE <<HASH>> \o R.fragment)
+Compose(sch, R, host, portpart) == sch \o <<COLON, SLASH, SLASH>> \o (IF R.userinfo = NONE THEN <<>> ELSE R.userinfo \o <<AT>>)
+                                   \o host \o portpart \o RestOf(R)
+PortPart(R) == IF R.colon THEN <<COLON>> \o R.digits ELSE <<>>
+TogglePort(R, sc) == IF R.port = NOPORT THEN <<COLON>> \o Digits(DefaultPort(sc))
+                     ELSE IF R.port = DefaultPort(sc) THEN <<>> ELSE PortPart(R)
+P8081 == S(":8081")
+ProxyDial == S("proxy.test")
+VariantsOf2(R, sc) == << Compose(Upper(R.scheme), R, UpperHost(R.host), PortPart(R)),
+                         Compose(R.scheme, R, R.host, TogglePort(R, sc)),
+                         Compose(Upper(R.scheme), R, UpperHost(R.host), TogglePort(R, sc)),
+                         Compose(R.scheme, R, R.host, P8081) >>
+VariantsOf(R) == VariantsOf2(R, Lower(R.scheme))
+
+\* ---- stage 1 (C15)
+PxModes == {"none", "proxy"}
+PxText(px) == IF px = "none" THEN NONE ELSE MCProxy
+\* every shape is inside the property's quantifier
+ShapesDefined == WireDefined(Ref(s))
+\* Model |= Rules: the monitor accepts the observation WireOf describes
+WireSelfConsistentOf(R) == \A px \in PxModes : WireClauses(WireObs(s, PxText(px), WireOf(R, px, PxRef))) = {}
+WireSelfConsistent == WireSelfConsistentOf(Ref(s))
+\* the four derivations agree with each other
+FourAgreeOf(R, W, hp) ==
+    /\ W.key[2] = WireHost(R.host) /\ W.dialhost = Unbracket(W.key[2]) /\ W.dialport = W.key[3]
+    /\ ~hp.bad /\ Unbracket(SubSeq(W.hosthdr, hp.h1, hp.hend)) = BareHost(W.dialhost)
+    /\ (IF hp.colon THEN PortVal(W.hosthdr, hp.d1, Len(W.hosthdr), 0) ELSE DefaultPort(W.key[1])) = W.dialport
+    /\ W.sni # NONE => /\ W.sni = BareHost(W.dialhost) /\ ~HasAny(W.sni, {LBR, RBR, PCT}) /\ W.sni[Len(W.sni)] # DOT
+                       /\ W.sni = Unbracket(SubSeq(W.hosthdr, hp.h1, hp.hend))
+    /\ (W.sni # NONE) = (W.key[1] = HTTPS)
+    /\ ~HasAny(W.target, {HASH, BSL}) /\ W.target[1] = SLASH
+    /\ OnlyAllowed(SubSeq(W.target, 1, FirstIn(W.target, 1, Len(W.target), {QM}) - 1), "path")
+    /\ NoDotSegments(SubSeq(W.target, 1, FirstIn(W.target, 1, Len(W.target), {QM}) - 1))
+FourAgree1(R, W) == FourAgreeOf(R, W, HostPort(W.hosthdr, 1, Len(W.hosthdr)))
+FourDerivationsAgree == FourAgree1(Ref(s), WireOf(Ref(s), "none", PxRef))
+\* through the proxy: dial the proxy; the absolute-form / CONNECT target names the same host and port; no
+\* userinfo, no fragment
+ProxiedAgreeOf(R, W, D, T) ==
+    /\ W.dialhost = ProxyDial /\ W.dialport = 3128
+    /\ W.hosthdr = D.hosthdr /\ W.sni = D.sni /\ W.key = D.key
+    /\ W.mode = "forward" => /\ T.userinfo = NONE /\ T.fragment = NONE /\ T.kind = "auth"
+                             /\ T.host = D.key[2] /\ EffPort(T, D.key[1]) = D.key[3]
+                             /\ T.path \o (IF T.query = NONE THEN <<>> ELSE <<QM>> \o T.query) = D.target
+    /\ W.mode = "tunnel" => /\ W.target = D.target
+                            /\ W.connect = D.key[2] \o <<COLON>> \o Digits(D.key[3])
+ProxiedAgree1(R, W) == ProxiedAgreeOf(R, W, WireOf(R, "none", PxRef), IF W.mode = "forward" THEN Ref(W.target) ELSE R)
+ProxiedDerivationsAgree == ProxiedAgree1(Ref(s), WireOf(Ref(s), "proxy", PxRef))
+\* case / default-port variants: equivalent, same pool key, same wire image; the control is not
+VariantsSameOf(R, vs) ==
+    /\ \A i \in 1..3 : /\ Equivalent(R, Ref(vs[i]))
+                       /\ \A px \in PxModes : WireOf(Ref(vs[i]), px, PxRef) = WireOf(R, px, PxRef)
+    /\ ~Equivalent(R, Ref(vs[4])) /\ WireOf(Ref(vs[4]), "none", PxRef).key # WireOf(R, "none", PxRef).key
+R0(R) == (R.port # 0) => VariantsSameOf(R, VariantsOf(R))
+VariantsSameKeySameWire == R0(Ref(s))
+
+EmitWireOf(R) ==
+    PrintT(<<"W", ToJson([s |-> s, px |-> MCProxy,
+                          wire |-> [px \in PxModes |-> WireOf(R, px, PxRef)],
+                          facts |-> [px \in PxModes |-> WireFacts(R, px)],
+                          vars |-> VariantsOf(R),
+                          eq |-> [i \in 1..4 |-> Equivalent(R, Ref(VariantsOf(R)[i]))]])>>)
+EmitWire == EmitWireOf(Ref(s))
 =============================================================================
